@@ -219,14 +219,14 @@ def _kf_series_index(family, case, disc):
 
 
 FAMILIES = [
-    Family("pandas", evaluate, strategy=strategy, n_quick=500, n_thorough=4000, shards_quick=4, shards_thorough=16,
+    Family("pandas", evaluate, strategy=strategy, n_quick=1000, n_thorough=4000, shards_quick=4, shards_thorough=16,
            required_labels=["bad_rows=some", "kind=series", "kind=column", "index=multi", "expect-raise"]),
 ]
 
 from . import plx  # noqa: E402
 
 FAMILIES.append(
-    Family("polars", plx.eval_c11, strategy=plx.strat_c11, n_quick=350, n_thorough=3000, shards_quick=3, shards_thorough=12,
+    Family("polars", plx.eval_c11, strategy=plx.strat_c11, n_quick=700, n_thorough=3000, shards_quick=3, shards_thorough=12,
            required_labels=["container=lf_full", "ref=some-bad", "ref=non-row-violation"]))
 
 
